@@ -57,6 +57,14 @@ def run_check(prop, tier, seed):
             ctx.check.self_test = selftest.run_for(prop, mod)
         return ctx.check.finish()
     except AnalysisBroken as ex:
+        # a rule that ran before the break may already have found a violation: report it (a finding is a finding),
+        # and say that the rest of the analysis did not complete
+        if ctx.check.findings:
+            ctx.check.note('analysis cut short after these findings: ' + str(ex))
+            print('ANALYSIS-INCOMPLETE property=%s %s' % (prop, ex))
+            rc = ctx.check.finish()
+            if rc == 1:
+                return 1
         return report.broken(prop, tier, seed, str(ex))
     except Exception as ex:
         traceback.print_exc()
